@@ -306,3 +306,17 @@ func TestGlobExhaustive(t *testing.T) {
 	P.Sample(map[string]any{"exhaustive": "all pattern/string pairs over {a,b,*,\\}", "max_len": maxLen, "pairs": evals})
 	P.SetExhaustive()
 }
+
+// FuzzGlob: coverage-guided search over (pattern, subject) byte strings with the reference matcher as oracle
+// (thorough tier only; Go's fuzzer cannot be pinned to VERIF_SEED, a crasher is saved as a replay file by the body).
+func FuzzGlob(f *testing.F) {
+	for _, s := range [][2]string{{"*", ""}, {"a*b", "ab"}, {`\*`, "*"}, {`a\\*`, `a\x`}, {"*a*b*", "xaxbx"}, {"**", "*"}, {"a*a", "a"}, {"ab*ba", "aba"}, {"\xff*", "\xff"}} {
+		f.Add(s[0], s[1])
+	}
+	f.Fuzz(func(t *testing.T, pat, s string) {
+		if len(pat) > 64 || len(s) > 256 {
+			return
+		}
+		prop.One(t, Case{Pat: pat, Str: s})
+	})
+}
